@@ -13,7 +13,7 @@ import (
 	"golang.org/x/tools/go/ssa"
 )
 
-// DivisionGuarded (C20.O7 division.nonzero): an integer division or remainder by zero is a run-time panic, and no recovery
+// DivisionGuarded (C20.O8 division.nonzero): an integer division or remainder by zero is a run-time panic, and no recovery
 // interceptor is installed (in the batch endpoints it would run in a scatter worker, where none could help): the process
 // dies. In production code of the module every integer `/` and `%` has a divisor that is a non-zero constant, or is shown
 // non-zero where it is used by a small sign analysis:
@@ -29,7 +29,7 @@ import (
 // Integer conversions are read through (a narrowing conversion of a huge non-zero length to zero is not considered), and
 // arithmetic overflow is not considered. len(x) of one slice value read twice counts as one value.
 func (c *Ctx) DivisionGuarded(prop string) {
-	rule := "C20.O7 division.nonzero"
+	rule := "C20.O8 division.nonzero"
 	sa := &signAn{c: c, memo: map[string]int{}}
 	n := 0
 	for _, fn := range c.P.ModuleFuncs() {
